@@ -191,6 +191,47 @@ theorem C09_used_iterators_are_live (cs : List Call) (c : Call) (id : Nat)
       · exact absurd rfl hr
     · exact absurd rfl hr
 
+/-! ## capacity of the alignment vectors -/
+
+/-- **C09, over-long alignments (vector level).** One `vector_grow_one` of `ps_alignment.c` (growth step
+`VECTOR_GROW`, limit and 16-bit counters regenerated from the source) on a vector whose counters are consistent:
+when it grants the entry the count goes up by exactly one — no wrap-around of the 16-bit counter —, the entry
+handed out (`seq + n_ent - 1`) lies inside the allocation, and neither count nor allocation exceeds the limit;
+otherwise it refuses (`none`: `alignment_add_word` returns 0, `alignment_populate` −1) and nothing changes. -/
+theorem C09_alignment_vector_in_bounds (v : AlignVec.Vec) (hv : v.Ok Generated.AlignVec.vectorLimit) :
+    match AlignVec.growOne v with
+    | some v' => v'.Ok Generated.AlignVec.vectorLimit ∧ v'.n = v.n + 1 ∧ v'.n - 1 < v'.alloc
+                 ∧ v'.n ≤ Generated.AlignVec.vectorLimit ∧ v'.n < 2 ^ Generated.AlignVec.counterBits
+    | none => True := by
+  cases h : AlignVec.growOne v with
+  | none => trivial
+  | some v' =>
+    obtain ⟨a, b, c, d⟩ := AlignVec.growOne_ok hv h
+    exact ⟨a, b, c, d, Nat.lt_of_le_of_lt d AlignVec.limit_fits⟩
+
+/-- **C09, over-long alignments (history level).** In every state reached by any history, every alignment the
+user builds with `alignment_init` / `alignment_add_word` / `alignment_populate(_ci)` — however many words are
+added, however often it is populated — has all three levels (words, phones, states) inside their allocation and
+inside the 16-bit limit: the calls that cannot be granted return their error value instead. -/
+theorem C09_built_alignments_in_bounds (cs : List Call) :
+    ∀ p ∈ (run init0 cs).built, AlignVec.UAlign.Ok p.2 := builtOk_run init0 builtOk_init0 cs
+
+/-- non-vacuity at the boundary: allocations run 11, 21, …, 65 531; with 65 520 entries the vector grows one last
+time, with 65 530 entries the next one is refused (65 541 > limit) -/
+example : AlignVec.Vec.Ok Generated.AlignVec.vectorLimit { n := 65520, alloc := 65521 } ∧
+    AlignVec.growOne { n := 65520, alloc := 65521 } = some { n := 65521, alloc := 65531 } ∧
+    AlignVec.Vec.Ok Generated.AlignVec.vectorLimit { n := 65530, alloc := 65531 } ∧
+    AlignVec.growOne { n := 65530, alloc := 65531 } = none := by
+  simp [AlignVec.Vec.Ok, AlignVec.growOne, AlignVec.growOneP, Generated.AlignVec.vectorLimit,
+        Generated.AlignVec.vectorGrow, Generated.AlignVec.counterBits]
+
+/-- non-vacuity at history level: three two-phone words, populated with 3 states per phone -/
+example :
+    runRets init0 [.init .good false, .alBuild 0, .alAdd 0 3 2, .alPop 0 3, .free, .alPop 0 3, .alFree 0]
+      = [.ptr, .ptr, .count, .ok, .rc 0, .ok, .void] ∧
+    (builtOf (run init0 [.init .good false, .alBuild 0, .alAdd 0 3 2, .alPop 0 3]).built 0).map
+      (fun u => (u.word.n, u.sseq.n, u.state.n)) = some (3, 6, 18) := by decide
+
 /-! ## two decoders, shared and held objects (system level, `Model/ProtocolSys.lean`) -/
 
 /-- every system state reached by any interleaved history keeps both decoder automata well-formed (so all the
